@@ -224,3 +224,33 @@ pub fn opt_into_vec(o: Option<u64>) -> (r: Vec<u64>) ensures r@ == (match o { So
 }
 // assert_eq!(a, b) in executable code: panics when the values differ, so the call carries the obligation that they are equal
 pub fn vassert_eq(a: usize, b: usize) requires a == b {}
+// `.cloned()` / `.copied()` over references (R31)
+#[verifier::external_body]
+pub fn vec_cloned<'a, T: Copy>(v: Vec<&'a T>) -> (r: Vec<T>) ensures r.len() == v.len(), forall|i: int| 0 <= i < v.len() ==> #[trigger] r[i] == *v[i] { v.into_iter().copied().collect() }
+// concatenation of a list of lists
+pub open spec fn flat<U>(outs: Seq<Seq<U>>, n: int) -> Seq<U> decreases n { if n <= 0 { Seq::empty() } else { flat(outs, n - 1) + outs[n - 1] } }
+// `.flat_map(C)` (R31): the items yielded by the closure for each element, in order
+#[verifier::external_body]
+pub fn vec_flat_map<T, U, F: Fn(T) -> Vec<U>>(v: Vec<T>, f: F) -> (r: Vec<U>)
+    requires forall|i: int| 0 <= i < v.len() ==> f.requires((#[trigger] v[i],))
+    ensures exists|outs: Seq<Vec<U>>| outs.len() == v.len() && (forall|i: int| 0 <= i < v.len() ==> f.ensures((v[i],), #[trigger] outs[i])) && r@ == flat(Seq::new(outs.len(), |i: int| outs[i]@), v.len() as int)
+{ v.into_iter().flat_map(f).collect() }
+pub proof fn lemma_flat_mem<U>(outs: Seq<Seq<U>>, n: int, x: U)
+    requires 0 <= n <= outs.len()
+    ensures flat(outs, n).contains(x) <==> exists|i: int| 0 <= i < n && (#[trigger] outs[i]).contains(x)
+    decreases n
+{
+    if n > 0 {
+        lemma_flat_mem(outs, n - 1, x);
+        let a = flat(outs, n - 1); let b = outs[n - 1];
+        if (a + b).contains(x) { let j = choose|j: int| 0 <= j < (a + b).len() && (a + b)[j] == x; if j < a.len() { assert(a[j] == x); assert(a.contains(x)); } else { assert(b[j - a.len()] == x); assert(b.contains(x)); } }
+        if a.contains(x) { let j = choose|j: int| 0 <= j < a.len() && a[j] == x; assert((a + b)[j] == x); }
+        if b.contains(x) { let j = choose|j: int| 0 <= j < b.len() && b[j] == x; assert((a + b)[a.len() + j] == x); }
+    }
+}
+// `opt.as_ref().map_or_else(BTreeSet::new, C)`: the closure's set for Some, the empty set for None
+#[verifier::external_body]
+pub fn opt_ref_map_or_new<T, F: Fn(&T) -> BTreeSet<u64>>(o: &Option<T>, f: F) -> (r: BTreeSet<u64>)
+    requires o is Some ==> f.requires((&o->Some_0,))
+    ensures o is Some ==> f.ensures((&o->Some_0,), r), o is None ==> r@ =~= Set::<u64>::empty()
+{ o.as_ref().map_or_else(BTreeSet::new, f) }
